@@ -344,7 +344,10 @@ def runC11 : P String := do
     succeeds, the bytes decode (specification) to a value `v` the presentation denotes, and the
     target receives exactly `observe v`. -/
 def runRt : P String := do
-  let allowSlow := (← pNat) ≠ 0
+  let flags ← pNat
+  let allowSlow := flags % 2 ≠ 0
+  -- bit 1: a type-directed presentation, which need not determine a branch
+  let typeDirected := flags / 2 % 2 ≠ 0
   let sm ← pSchemaMut
   let sv ← pSV
   let ext ← pExtEntries {}
@@ -355,7 +358,9 @@ def runRt : P String := do
     let (r, st) := ser ext.toExt allowSlow S root sv {}
     match r with
     | .error .panic => pure "panic # VIOLATION panic"
-    | .error _ => pure "err # VIOLATION a conforming value in a branch-determining presentation was rejected"
+    | .error _ =>
+      if typeDirected then pure "err # n/a the presentation does not determine a branch (or does not fit)"
+      else pure "err # VIOLATION a conforming value in a branch-determining presentation was rejected"
     | .ok _ =>
       let bs := st.out
       let dres := deOne {} S root 64 .any { rest := bs }
@@ -381,14 +386,20 @@ def runRt : P String := do
 def runJudgeRt : P String := do
   let n ← pNat
   let toks ← (List.range n).mapM fun _ => tok
-  let _allowSlow ← pNat
+  let flags ← pNat
+  let allowSlow := flags % 2 ≠ 0
+  let typeDirected := flags / 2 % 2 ≠ 0
   let sm ← pSchemaMut
   let sv ← pSV
   let ext ← pExtEntries {}
   let S := freezeNodes sm
   match S[0]?, toks with
   | none, _ => pure "judged # ok"
-  | some _, "err" :: _ => pure "judged # VIOLATION a conforming value in a branch-determining presentation was rejected"
+  | some root, "err" :: _ =>
+    -- type-directed: an error is legitimate unless the verified model serializes the value
+    let (r, _) := ser ext.toExt allowSlow S root sv {}
+    if typeDirected && (match r with | .ok _ => false | .error _ => true) then pure "judged # ok"
+    else pure "judged # VIOLATION a conforming value in a branch-determining presentation was rejected"
   | some _, "panic" :: _ | some _, "abort" :: _ => pure "judged # VIOLATION panic or abort"
   | some root, "ok" :: h :: "|" :: rest =>
     (match hexToBytes h.toList, pDeOutcome.run rest with
@@ -408,6 +419,20 @@ def runJudgeRt : P String := do
             | .error _, some _ => "VIOLATION the bytes written do not read back"
             | .error _, none => "ok")
         | _ => "VIOLATION Ok(bytes) but the bytes do not decode under the specification"
+      -- exactness: where the model's round trip is exact, the value read back must be that value
+      -- (a less exact branch — float for an f64 next to a double, string for an enum symbol — still
+      -- "denotes" under the documented conversions but does not give the value back)
+      let verdict :=
+        if verdict ≠ "ok" then verdict else
+        let (r, st) := ser ext.toExt allowSlow S root sv {}
+        match r, dres with
+        | .ok _, .ok (o, _) =>
+          (match deOne {} S root 64 .any { rest := st.out } with
+            | .ok (om, 0) =>
+              if outToString (unborrow om) = outToString (unborrow o) then "ok"
+              else "VIOLATION the value read back is not the value a faithful round trip delivers (another union branch was selected than the best-suited one)"
+            | _ => "ok")
+        | _, _ => "ok"
       pure s!"judged # {verdict}"
     | _, _ => pure "judged # ok")
   | _, _ => pure "judged # ok"
